@@ -432,6 +432,7 @@ def shared(ctx):
     from rules.props import c20
     core.import_rules(ctx, [c20.r1_protocol], "X20")   # a spent coin that is not cleared can be spent again
     core.import_rules(ctx, [c15.r1_selection_atoms, c15.r2_canonical_keys, c15.r3_swaps, c15.r3_deposits, c15.r3_withdrawals, c15.r5_only_selected], "X15")
+    core.import_rules(ctx, [c15.r6_stage_order], "X15")          # each pool is processed once per block: a pool listed twice credits its reserves twice for coins consumed once
     # ERG enters circulation only through DoscMint, bounded by the reward formula evaluated against the previous block's speed (C18.R1/R2/R5)
     from rules.props import c18
     core.import_rules(ctx, [c18.r1_gate_chain, c18.r2_reward_bound, c18.r5_speed_formula], "X18")
